@@ -92,6 +92,15 @@ theorem wna_sample_cov {n N : Nat} (S Q : Mat ℝ n n) (z : Mat ℝ n N)
   intro ι s w zs hE
   rw [sample_second_moment, hE, Matrix.mul_one, hS]
 
+/-- The contract `S Sᵀ = Q` follows for the expression the code uses, `S = Pᵀ L √D`, from the
+    contract of the decomposition it calls (`Q = Pᵀ L D Lᵀ P` with `D ≥ 0`, Eigen's `LDLT` on a
+    positive semi-definite matrix). -/
+theorem wna_sqrt_contract {n : Nat} (P L Q : Mat ℝ n n) (d : Vec ℝ n) (hd : ∀ i, 0 ≤ d i)
+    (hQ : (toM P)ᵀ * toM L * Matrix.diagonal (fun i => d i) * (toM L)ᵀ * toM P = toM Q) :
+    toM (ldltSqrt P L d) = (toM P)ᵀ * toM L * Matrix.diagonal (fun i => Real.sqrt (d i)) ∧
+    toM (ldltSqrt P L d) * (toM (ldltSqrt P L d))ᵀ = toM Q :=
+  ⟨toM_ldltSqrt P L d, ldltSqrt_contract P L Q d hd hQ⟩
+
 /-- Reproducibility: a sample is a function of the factor and of the window of the stream the call
     reads; consecutive calls read consecutive windows (column-major fill). -/
 theorem wna_sample_reproducible {n : Nat} (S : Mat ℝ n n) (r r' : Rng ℝ) (N : Nat)
@@ -268,6 +277,18 @@ theorem sim_recurrence (step : Nat → σ → σ) (x0 : σ) (L : Nat) :
   · intro k hk
     refine ⟨simTraj step x0 k, simCtor_target_get step x0 L k (by omega), ?_⟩
     rw [simCtor_target_get step x0 L (k + 1) hk]; rfl
+
+/-- With the shipped additive linear model as the state model, the recurrence reads
+    `x_{k+1} = F x_k + S z_k`, `z_k` being draws `k n … k n + n − 1` of the model's generator. -/
+theorem sim_wna_recurrence {n : Nat} (F S : Mat ℝ n n) (stream : Nat → ℝ) (x0 : Vec ℝ n) (L : Nat) :
+    ∀ k, k + 1 < L →
+      ∃ xk xk1, (simCtor (addSimStep F S stream) x0 L).target[k]? = some xk ∧
+        (simCtor (addSimStep F S stream) x0 L).target[k + 1]? = some xk1 ∧
+        toV xk1 = toM F *ᵥ toV xk + toM S *ᵥ (fun i : Fin n => stream (k * n + i.val)) := by
+  intro k hk
+  obtain ⟨_, _, h⟩ := sim_recurrence (addSimStep F S stream) x0 L
+  obtain ⟨xk, h1, h2⟩ := h k hk
+  exact ⟨xk, _, h1, h2, addSimStep_eq F S stream k xk⟩
 
 /-- Served in order: after any sequence of calls, the cursor is `min L c` where `c` counts the
     `bufferData` calls since the last reset; if `c < L` the next `bufferData` succeeds and `getData`
